@@ -1001,6 +1001,42 @@ func ruleLexRegexpFlags(c *Ctx, r *R) {
 				}
 				walk(st.Val, 0)
 				key := ssaFuncName(fn)
+				if fromToken {
+					// second obligation (7.9.1, valid programs): at least the token is not taken across a line terminator -
+					// every edge on which the token's literal arrives is dominated by a test of the implicit-semicolon mark
+					// the scanner leaves when it crosses one (or of the token's position)
+					guarded := true
+					seen := map[ssa.Value]bool{}
+					var edges func(v ssa.Value, from *ssa.BasicBlock)
+					edges = func(v ssa.Value, from *ssa.BasicBlock) {
+						if seen[v] {
+							return
+						}
+						seen[v] = true
+						if phi, ok := v.(*ssa.Phi); ok {
+							for i, e := range phi.Edges {
+								edges(e, phi.Block().Preds[i])
+							}
+							return
+						}
+						if u, ok := v.(*ssa.UnOp); !ok || u.Op != token.MUL || !isFieldAddr(u.X, "parser", "literal") {
+							return
+						}
+						found := false
+						for _, d := range fn.Blocks {
+							iff, ok := d.Instrs[len(d.Instrs)-1].(*ssa.If)
+							if ok && d.Dominates(from) && mentionsParserField(iff.Cond, 0, "implicitSemicolon", "idx") {
+								found = true
+							}
+						}
+						if !found {
+							guarded = false
+						}
+					}
+					edges(st.Val, b)
+					r.check(guarded, key+":line-break", c.Pos(instrPos(st)), "the next token is taken as the flags only under a test of the line break in front of it",
+						key+" takes the identifier token that follows a regular expression literal as its flags without asking whether the scanner crossed a line terminator in front of it: the valid program `var re = /a+/<LF>found = 1` is parsed as the literal /a+/found and the assignment is lost or rejected (ES5 7.8.5, 7.9.1)")
+				}
 				r.check(!fromToken, key, c.Pos(instrPos(st)), "the flags are not taken from a token of the general tokeniser",
 					key+" takes the flags of a regular-expression literal from the next token of the general tokeniser (p.literal after next()): white space, comments and line terminators between the closing `/` and an identifier are skipped, so `var g = 0<LF>var re = /a/<LF>g` gives re.global === true and `re = /ab+c/<LF>i = 1` is a syntax error (ES5 7.8.5: the flags follow the `/` immediately)")
 			}
@@ -1009,6 +1045,41 @@ func ruleLexRegexpFlags(c *Ctx, r *R) {
 	if n == 0 {
 		r.undecided("unresolved:flags-store", "-", "UNRESOLVED: no store to ast.RegExpLiteral.Flags in package parser")
 	}
+}
+
+// mentionsParserField: the value is computed from a load of one of the named fields of the parser.
+func mentionsParserField(v ssa.Value, depth int, names ...string) bool {
+	if depth > 5 || v == nil {
+		return false
+	}
+	switch x := v.(type) {
+	case *ssa.UnOp:
+		if x.Op == token.MUL {
+			for _, n := range names {
+				if isFieldAddr(x.X, "parser", n) {
+					return true
+				}
+			}
+		}
+		return mentionsParserField(x.X, depth+1, names...)
+	case *ssa.BinOp:
+		return mentionsParserField(x.X, depth+1, names...) || mentionsParserField(x.Y, depth+1, names...)
+	case *ssa.Phi:
+		for _, e := range x.Edges {
+			if mentionsParserField(e, depth+1, names...) {
+				return true
+			}
+		}
+	case *ssa.Convert:
+		return mentionsParserField(x.X, depth+1, names...)
+	case *ssa.Call:
+		for _, a := range x.Call.Args {
+			if mentionsParserField(a, depth+1, names...) {
+				return true
+			}
+		}
+	}
+	return false
 }
 
 // ---- PARSE-key -----------------------------------------------------------------------------------------------------------
